@@ -93,6 +93,9 @@ func (o *ObjectSchema) IDUnenforced() bool {
 }
 
 func (o *ObjectSchema) ApplyNamespace(objects map[string]*ObjectSchema, namespace string) {
+	// An object that was unserialized from a description decodes its defaults lazily; decode them now so
+	// that an unparsable default is reported when the schema is linked rather than on first use.
+	o.GetDefaults()
 	for _, property := range o.PropertiesValue {
 		property.ApplyNamespace(objects, namespace)
 	}
